@@ -215,7 +215,7 @@ class PjRpcMocker:
 
         endpoint = origin_self._endpoint
         matches = self._matches.get(endpoint)
-        if matches is None:
+        if not matches:
             if self._passthrough:
                 return self._patcher.temp_original(origin_self, request_text, is_notification, **kwargs)
             else:
